@@ -119,6 +119,11 @@ func (k *KerberosProxy) forward(realm string, data []byte) (resp []byte, err err
 		return nil, fmt.Errorf("cannot get any kdcs (tcp or udp) for realm %s", realm)
 	}
 
+	// the kerberos message carries a 4 byte length prefix that is stripped for udp
+	if len(data) < 4 {
+		return nil, fmt.Errorf("kerberos message too short: %d bytes", len(data))
+	}
+
 	// merge the kdcs
 	kdcs := make([]Kdc, tcpCnt+udpCnt)
 	// GetKDCs numbers the servers 1..count
